@@ -32,6 +32,7 @@ var kindNames = []string{
 	"incremental_vacuum-shrink+uncommitted-spill",
 	"two-restarts+spilled-committed-txn",
 	"truncate-checkpoint+rolled-back-spill-tail",
+	"auto_vacuum-full-grow-then-delete-in-one-spilled-txn",
 }
 
 func (b baseSpec) String() string {
@@ -50,7 +51,7 @@ func makeBaseSpec(runSeed, seed int64, i int) baseSpec {
 		Kind:     kind,
 	}
 	switch kind {
-	case 2:
+	case 2, 6:
 		bs.AutoVacuum = 1
 	case 3:
 		bs.AutoVacuum = 2
@@ -260,6 +261,38 @@ func harvest(dir string, bs baseSpec) (*baseData, error) {
 		step(func() error { return spill("rollback") })
 		if rng.Intn(2) == 0 {
 			step(func() error { return run(`UPDATE ledger SET k=k+1`) })
+		}
+	case 6:
+		// one transaction grows the database (its dirty pages, with page numbers beyond the
+		// old size, are spilled into the WAL), deletes the rows again and commits: with
+		// auto_vacuum=FULL the commit record carries the old size while frames for pages
+		// beyond it precede it in the WAL
+		step(func() error { return bigRows(sc(8 + rng.Intn(4))) })
+		step(func() error { return ckpt("FULL") })
+		step(func() error { return commitOps(3) })
+		step(func() error {
+			if err := run(`PRAGMA cache_size=1`); err != nil {
+				return err
+			}
+			tx, err := app.Begin()
+			if err != nil {
+				return err
+			}
+			for i, n := 0, 5+rng.Intn(3); i < n; i++ {
+				if _, err := tx.Exec(`INSERT INTO u(n, v) VALUES(?, ?)`, -7, blob(2*ps+rng.Intn(ps))); err != nil {
+					tx.Rollback()
+					return err
+				}
+			}
+			if _, err := tx.Exec(`DELETE FROM u WHERE n = -7`); err != nil {
+				tx.Rollback()
+				return err
+			}
+			return tx.Commit()
+		})
+		step(func() error { return commitOps(sc(2 + rng.Intn(3))) })
+		if rng.Intn(2) == 0 {
+			step(func() error { return spill("open") })
 		}
 	default:
 		return nil, fmt.Errorf("unknown base kind %d", bs.Kind)
